@@ -802,6 +802,134 @@ def history_leg(chk, rng, thorough, hit, stats, scases, sel_cases):
 
 
 
+# ----------------------------------------------------------------------------
+# overlapping requests: handler instances of one process stepped in every order; a live threaded server
+# ----------------------------------------------------------------------------
+def interleavings(seqs):
+    """all merges of the given sequences that keep each sequence's own order"""
+    if all(not q for q in seqs):
+        return [[]]
+    out = []
+    for i, q in enumerate(seqs):
+        if q:
+            rest = [x[1:] if j == i else x for j, x in enumerate(seqs)]
+            out += [[q[0]] + t for t in interleavings(rest)]
+    return out
+
+
+def concurrency_leg(chk, rng, thorough, hit, stats):
+    """(a) two or three handler instances for different gophermaps (and the same one twice) in one process, stepped by
+    hand through every interleaving of open / prepare / getdirlist / getdirlist: every listing must be the one a
+    process gives that serves this gophermap alone, and one entry per line of ITS OWN gophermap as documented;
+    (b) the real ThreadingTCPServer, clients asking for different gophermap directories at the same moment."""
+    stats.update({"interleave_schedules": 0, "interleave_listings": 0, "live_concurrent_answers": 0})
+    jobs, metas = [], []
+    for wi in range(3 if thorough else 2):
+        maps, meta = {}, []
+        for depth, d in enumerate(DEPTH_DIRS):
+            for is_file in (False, True):
+                data = gen_map(rng, "wf", depth, is_file)
+                path = (d + "/" if d else "") + ("x.gophermap" if is_file else "gophermap")
+                maps[path] = data
+                meta.append({"selector": "/" + path if is_file else ("/" + d if d else "/"), "is_file": is_file, "data": data})
+        tree = tree_for(maps, gen_sidecars(rng, 0.2))
+        groups = [rng.sample(range(8), 2) for _ in range(3)] + [[k, k] for k in rng.sample(range(8), 1)] + \
+                 [rng.sample(range(8), 3) for _ in range(2 if thorough else 1)]
+        for g in groups:
+            seqs = [[[slot, a] for a in ("open", "prepare", "list", "list")] for slot in range(len(g))]
+            if len(g) == 2:
+                scheds = interleavings(seqs)                       # all 70
+            else:
+                seqs = [[[slot, a] for a in ("open", "prepare", "list")] for slot in range(len(g))]
+                allm = interleavings(seqs)                         # 1680
+                scheds = rng.sample(allm, 60 if thorough else 30)
+            jobs.append({"op": "gm_interleave", "tree": tree, "config": CONFIG, "selectors": [meta[k]["selector"] for k in g],
+                         "schedules": scheds})
+            metas.append((tree, [meta[k] for k in g], scheds))
+    res = impl_run_parallel(jobs, chunks=min(len(jobs), 6))
+    # reference: every gophermap served alone, by a process that does nothing else (separate interpreter)
+    refjobs = [{"op": "gm_world", "tree": tree, "config": CONFIG, "maps": [m["selector"] for m in ms], "requests": []}
+               for tree, ms, _ in metas]
+    refs = impl_run_parallel(refjobs, chunks=min(len(refjobs), 6))
+    for r in res + refs:
+        if not r["ok"]:
+            raise RuntimeError(r["err"] + "\n" + r.get("tb", ""))
+    for (tree, ms, scheds), r, ref in zip(metas, res, refs):
+        alone = [c["entries"] for c in ref["res"]["components"]]
+        for sched, o in zip(scheds, r["res"]):
+            stats["interleave_schedules"] += 1
+            chk.count(("interleave", tuple(m["selector"] for m in ms), repr(sched)))
+            replay = {"kind": "interleave", "tree": tree, "config": CONFIG, "selectors": [m["selector"] for m in ms],
+                      "gophermaps_latin1": [lat(m["data"]) for m in ms], "schedule": sched, "exception": o["exc"]}
+            if o["exc"] is not None:
+                hit("interleaved-listing", dict(replay, what="stepping two handler instances of one process raised"))
+                continue
+            for slot, ents in o["lists"]:
+                stats["interleave_listings"] += 1
+                m = ms[slot]
+                lines = [u(l) for l in split_lines(m["data"])]
+                ddir = doc_dir(m["selector"], m["is_file"])
+                bad = None
+                if ents != alone[slot]:
+                    bad = "differs from the listing of the same gophermap served alone"
+                elif len(ents) != len(lines):
+                    bad = "not one entry per line of its own gophermap"
+                else:
+                    for ln, e in zip(lines, ents):
+                        if twin_wf(ln) and twin_item(ddir, ln) != (e["type"], e["name"], e["selector"], e["host"], e["port"]):
+                            bad = "an entry is not the documented reading of its line"
+                            break
+                if bad:
+                    hit("interleaved-listing",
+                        dict(replay, what="a handler's listing depends on another handler instance of the same process: " + bad,
+                             slot=slot, selector=m["selector"], gophermap_latin1=lat(m["data"]),
+                             listing=[[e["type"], e["name"], e["selector"]] for e in ents][:12],
+                             alone=[[e["type"], e["name"], e["selector"]] for e in (alone[slot] or [])][:12]))
+                    break
+    # ---- live: ThreadingTCPServer, simultaneous clients
+    big = {}
+    nbig = 2500 if thorough else 1500
+    for k in range(3):
+        ls = []
+        for i in range(nbig):
+            if i % 3 == 0:
+                ls.append(b"section %d of menu %d" % (i, k))
+            else:
+                ls.append(b"0item %d of menu %d\tdoc%d-%d.txt" % (i, k, k, i))
+        big["big%d/gophermap" % k] = b"\n".join(ls) + b"\n"
+    big["small/gophermap"] = b"ismall menu\n1up\t/\n"
+    tree = tree_for(big)
+    sels = ["/big0", "/big1", "/big2", "/small", "/big0", "/big1"]
+    live, = impl_run([{"op": "gm_live", "tree": tree, "config": CONFIG, "selectors": sels, "rounds": 6 if thorough else 3}])
+    if not live["ok"]:
+        raise RuntimeError(live["err"] + "\n" + live.get("tb", ""))
+    seq = live["res"]["sequential"]
+    for i, (sel, a) in enumerate(zip(sels, seq)):
+        lines = split_lines(big[sel[1:] + "/gophermap"])
+        items = parse_gopher_menu(u(a["out"].encode("latin-1")))
+        if a["exc"] or items is None or len(items) != len(lines):
+            hit("live-listing", {"kind": "live", "what": "the live server does not list a large gophermap one item per line",
+                                 "selector": sel, "lines": len(lines), "items": None if items is None else len(items),
+                                 "exception": a["exc"], "tree_note": "3 menus of %d generated lines + /small" % nbig})
+    for ri, rnd in enumerate(live["res"]["rounds"]):
+        for i, (sel, a) in enumerate(zip(sels, rnd)):
+            stats["live_concurrent_answers"] += 1
+            chk.count(("live", ri, i, sel))
+            if a is None or a["exc"] or a["out"] != seq[i]["out"]:
+                got = "" if a is None else a["out"]
+                want = seq[i]["out"]
+                k = next((j for j, (x, y) in enumerate(zip(got, want)) if x != y), min(len(got), len(want)))
+                hit("concurrent-listing",
+                    {"kind": "live", "what": "ThreadingTCPServer: a gophermap listing requested at the same moment as others differs "
+                                             "from the answer to the same request made alone",
+                     "selector": sel, "simultaneous_selectors": sels, "round": ri, "exception": None if a is None else a["exc"],
+                     "answer_bytes": len(got), "alone_bytes": len(want), "first_difference_at": k,
+                     "answer_around": got[max(0, k - 120):k + 200], "alone_around": want[max(0, k - 120):k + 200],
+                     "gophermap_latin1": "", "tree_note": "big<k>/gophermap: %d lines 'section i of menu k' / '0item i of menu k<TAB>dock-i.txt'; "
+                                                          "small/gophermap: 2 lines" % nbig, "config": CONFIG})
+
+
+
 def run(tier):
     chk = Check("C09", tier)
     chk.proofs(extra_files=["Corr/K09.v"])
@@ -1200,6 +1328,11 @@ def run(tier):
     wjobs.extend(j + ("chk_world",) for j in history_leg(chk, rng, thorough, hit, stats, scases, sel_cases))
     chk.notes["seconds_history_leg"] = round(_time.time() - t_h0, 1)
 
+    # ---------------- overlapping requests ----------------
+    t_c0 = _time.time()
+    concurrency_leg(chk, rng, thorough, hit, stats)
+    chk.notes["seconds_concurrency_leg"] = round(_time.time() - t_c0, 1)
+
     # ---------------- K: model in Coq vs implementation ----------------
     import concurrent.futures
     t_coq0 = _time.time()
@@ -1306,6 +1439,10 @@ def run(tier):
         "looked up inside it; only UTF-8 member names",
         "link targets: HTML HREF/ACTION, WML href, gemini/spartan URL are compared with the documented reading (URL after 'URL:', "
         "percent-decoded local path = selector, gopher://host:port/type+selector); 'no host, port 0' is not checked",
+        "interleaving leg: handler instances of one process stepped by hand in every order of open/prepare/getdirlist (reference: "
+        "the same gophermap served alone by a separate interpreter, and the documents' reading); live leg: real ThreadingTCPServer on "
+        "127.0.0.1, plain Gopher, clients released by a barrier -- a search over schedules the OS happens to produce, not a proof of "
+        "thread safety (C14's subject)",
         "history leg: DirHandler's own listing cache (.cache.pygopherd.dir) is switched off (cachetime = 0; C10's subject) so that "
         "only gophermap handling is observed; the reference is the same tree state served by a freshly forked process that never "
         "served a request; modification times are masked when responses are compared",
@@ -1323,6 +1460,24 @@ def replay(path):
     with open(path) as f:
         rp = json.load(f)
     sel = rp.get("selector")
+    if rp.get("kind") == "interleave":
+        r1, = impl_run([{"op": "gm_interleave", "tree": rp["tree"], "config": rp["config"], "selectors": rp["selectors"],
+                         "schedules": [rp["schedule"]]}])
+        r2, = impl_run([{"op": "gm_world", "tree": rp["tree"], "config": rp["config"], "maps": rp["selectors"], "requests": []}])
+        if not (r1["ok"] and r2["ok"]):
+            print(r1.get("err"), r2.get("err"))
+            return 2
+        alone = [c["entries"] for c in r2["res"]["components"]]
+        o = r1["res"][0]
+        differs = o["exc"] is not None or any(ents != alone[slot] for slot, ents in o["lists"])
+        print(json.dumps({"schedule": rp["schedule"], "exception": o["exc"],
+                          "listings": [[slot, [[e["type"], e["name"], e["selector"]] for e in ents][:8]] for slot, ents in o["lists"]],
+                          "alone": [[[e["type"], e["name"], e["selector"]] for e in (a or [])][:8] for a in alone],
+                          "still_differs": differs}, indent=1, ensure_ascii=True))
+        return 1 if differs else 0
+    if rp.get("kind") == "live":
+        print("live replays are re-run by ./check C09 (thread schedules are not reproducible from a file)")
+        return 2
     if rp.get("kind") == "history":
         steps = [dict(st) for st in rp["steps"]]
         req = [{"data": rp["request_latin1"], "tls": rp.get("tls", False)}]
